@@ -19,6 +19,7 @@ EXTENDS AbbrTree
 CONSTANTS FormIdx
 
 NOTEXT == <<>>
+BOOL == "<bool>"          \* a boolean attribute (mark "." or listed in output.booleanAttributes) without value
 F(s, n, id, cls, attrs, text, sc, impl) == [s |-> s, n |-> n, id |-> id, cls |-> cls, attrs |-> attrs, text |-> text, sc |-> sc, impl |-> impl]
 Forms == <<
   F("x",                 "x",   "",  <<>>,         <<>>,                       NOTEXT,               FALSE, FALSE),
@@ -37,7 +38,10 @@ Forms == <<
   F("#j",                "?",   "j", <<>>,         <<>>,                       NOTEXT,               FALSE, TRUE),
   F("em.c{t}",           "em",  "",  <<"c">>,      <<>>,                       <<"t">>,              FALSE, FALSE),
   F("p{one\rtwo}",       "p",   "",  <<>>,         <<>>,                       <<"one", "two">>,     FALSE, FALSE),
-  F("x.d{a\r\nbc}",      "x",   "",  <<"d">>,      <<>>,                       <<"a", "bc">>,        FALSE, FALSE) >>
+  F("x.d{a\r\nbc}",      "x",   "",  <<"d">>,      <<>>,                       <<"a", "bc">>,        FALSE, FALSE),
+  F("x[d. t=v]",         "x",   "",  <<>>,         <<<<"d", BOOL>>, <<"t", "v">>>>, NOTEXT,            FALSE, FALSE),
+  F("p[disabled]#i",     "p",   "i", <<>>,         <<<<"disabled", BOOL>>>>,   NOTEXT,               FALSE, FALSE),
+  F("em[v=1 w]{t}",      "em",  "",  <<>>,         <<<<"v", "1">>, <<"w", "">>>>, <<"t">>,            FALSE, FALSE) >>
 FormKey(k) == "F" \o ToString(k)
 KeyIdx(key) == CHOOSE k \in 1..Len(Forms) : FormKey(k) = key
 
@@ -57,8 +61,9 @@ Tree == IResolve(<<>>, ContractListing)
 
 (* ------------------------------------------------------------ line contract *)
 Syntaxes == <<"pug", "haml", "slim">>
-RECURSIVE JoinAttrs(_, _)
-JoinAttrs(attrs, glue) == IF attrs = <<>> THEN "" ELSE Head(attrs)[1] \o "=\"" \o Head(attrs)[2] \o "\"" \o (IF Len(attrs) > 1 THEN glue \o JoinAttrs(Tail(attrs), glue) ELSE "")
+RECURSIVE JoinAttrs(_, _, _)
+OneAttr(a, syn) == IF a[2] = BOOL THEN a[1] \o (IF syn = "haml" THEN "=true" ELSE "") ELSE a[1] \o "=\"" \o a[2] \o "\""
+JoinAttrs(attrs, glue, syn) == IF attrs = <<>> THEN "" ELSE OneAttr(Head(attrs), syn) \o (IF Len(attrs) > 1 THEN glue \o JoinAttrs(Tail(attrs), glue, syn) ELSE "")
 RECURSIVE Dots(_)
 Dots(cls) == IF cls = <<>> THEN "" ELSE "." \o Head(cls) \o Dots(Tail(cls))
 HeadOf(e, syn) ==
@@ -66,9 +71,9 @@ HeadOf(e, syn) ==
         primary == f.id # "" \/ f.cls # <<>>
         nm == IF e.n = "div" /\ primary THEN "" ELSE (IF syn = "haml" THEN "%" ELSE "") \o e.n
         al == IF f.attrs = <<>> THEN ""
-              ELSE IF syn = "pug" THEN "(" \o JoinAttrs(f.attrs, ", ") \o ")"
-              ELSE IF syn = "haml" THEN "(" \o JoinAttrs(f.attrs, " ") \o ")"
-              ELSE " " \o JoinAttrs(f.attrs, " ")
+              ELSE IF syn = "pug" THEN "(" \o JoinAttrs(f.attrs, ", ", syn) \o ")"
+              ELSE IF syn = "haml" THEN "(" \o JoinAttrs(f.attrs, " ", syn) \o ")"
+              ELSE " " \o JoinAttrs(f.attrs, " ", syn)
         scm == IF f.sc THEN (IF syn = "pug" THEN "" ELSE "/") ELSE ""
         tx == IF Len(f.text) = 1 THEN " " \o f.text[1] ELSE ""
     IN nm \o (IF f.id = "" THEN "" ELSE "#" \o f.id) \o Dots(f.cls) \o al \o scm \o tx
